@@ -192,6 +192,42 @@ fn check_tape(tape: &[u8], gates: &Gates, codes: &[String], stats: &mut Stats, c
             return Err(fail("directory", "diagnostics-differ", format!("`check <dir>` reports {:?}, `check <files>` reports {:?}", kd, b.1)));
         }
     }
+    // (b2) the same set reached twice: the directory plus one of its files, or one file under two
+    // spellings (relative, ./, dir/../dir) - still the same set of files
+    if choice.ratio(1, 3) && gates.want("SAME_FILE_REACHED_TWICE") {
+        let i = choice.below(paths.len());
+        let name = format!("f{}.st", i);
+        let spelled = match choice.below(4) {
+            0 => paths[i].clone(),
+            1 => format!("set/{}", name),
+            2 => format!("./set/{}", name),
+            _ => format!("set/../set/{}", name),
+        };
+        let dir_spelled = if choice.flag() { "set".to_string() } else { sub.to_string_lossy().to_string() };
+        let mut args = vec!["check".to_string()];
+        match choice.below(3) {
+            0 => args.extend([dir_spelled, spelled]),
+            1 => args.extend([spelled, dir_spelled]),
+            _ => {
+                // every file once by its absolute path, one of them again under another spelling
+                args.extend(paths.iter().cloned());
+                args.push(spelled);
+            }
+        }
+        let out = run_cli(&args, Some(&dir.path));
+        if !out.timed_out {
+            let o = CheckObs { status: out.status, ok_line: out.stdout.lines().any(|l| l.trim() == "OK"), diags: parse_cli_diags(&out.stderr) };
+            if counting {
+                stats.class("check.same-file-twice");
+            }
+            channels_agree(&o, codes, "check <dir> <file of dir>").map_err(|(k, d)| fail("channels", &k, d))?;
+            if let Some(b) = &base {
+                if o.status != b.0 {
+                    return Err(fail("same-file-twice", "exit-differs", format!("`check {}` (cwd = parent of set/) exits {:?}, `check <files>` exits {:?}", args[1..].join(" "), o.status, b.0)));
+                }
+            }
+        }
+    }
     // (c) directory + extra file outside it
     if choice.flag() {
         let extra = dir.write("extra.st", b"PROGRAM extra_prog\nVAR\nextra_v : INT;\nEND_VAR\nextra_v := 1;\nEND_PROGRAM\n").to_string_lossy().to_string();
